@@ -501,14 +501,19 @@ class AwareASTNode(DataClassSerializeMixin):
         self,
         operation: t.Literal["create", "attach", "replace"],
         pending: dict[str, AwareASTNode] | None = None,
+        claimed: dict[int, AwareASTNode] | None = None,
     ) -> tuple[AwareASTNode, AwareASTNode] | None:
         """Dry run of `_attach_inner`: the same checks in the same order, changing nothing.
 
         `pending` holds the nodes of the subtree that the real run will have registered
-        by the time it reaches this node.
+        by the time it reaches this node, `claimed` the attached roots it will have
+        re-parented (by object identity) and their new parents.
         """
         if pending is None:
             pending = {}
+
+        if claimed is None:
+            claimed = {}
 
         existing = AwareASTNode._nodes.get(self.id, pending.get(self.id))
         if existing is not None:
@@ -520,11 +525,18 @@ class AwareASTNode(DataClassSerializeMixin):
 
         for c in self.get_child_nodes():
             if c.detached:
-                if (ret := c._check_attach(operation=operation, pending=pending)) is not None:
+                if (
+                    ret := c._check_attach(operation=operation, pending=pending, claimed=claimed)
+                ) is not None:
                     return ret
             elif not c.is_attached_root:
                 assert c.parent is not None
                 return (c, c.parent)
+            elif id(c) in claimed:
+                # An attached root that an earlier node of this subtree takes as its child
+                return (c, claimed[id(c)])
+            else:
+                claimed[id(c)] = self
 
         # Like the real run, a node is registered after its children: a descendant
         # with the same id would be silently replaced in the registry
